@@ -212,6 +212,44 @@ def r2_position_before_newline(ctx: Ctx) -> None:
     ctx.floor("position_reads", 3)
 
 
+def _newline_free_lookahead(fn: FunctionInfo, restore: ast.Assign) -> bool:
+    """`saved = s.pos` ... `s.pos = saved` where every consuming call between the two is an accept / accept_run / accept_prefix of a
+    literal that cannot take a newline (a negated run must list the newline, a plain one must not)"""
+    recv = unparse(restore.targets[0]).rsplit(".", 1)[0]
+    if not isinstance(restore.value, ast.Name):
+        return False
+    snaps = [x for x in walk_no_nested(fn.node) if isinstance(x, ast.Assign) and unparse(x.targets[0]) == restore.value.id]
+    if len(snaps) != 1 or unparse(snaps[0].value) != f"{recv}.pos":
+        return False
+    g = CFG(fn.node)
+    sn, rn = g.node_of(snaps[0]), g.node_of(restore)
+    if not g.dominated_by(rn, [sn]):
+        return False
+    between = g.reachable([m for m, _l in g.succ[sn]], blocked=[rn], labels_excluded=["exc"])
+    for nid in between:
+        a = g.nodes[nid].ast
+        if a is None:
+            continue
+        root = a if g.nodes[nid].kind != "for" else a.iter  # type: ignore[attr-defined]
+        for c in [x for x in walk_no_nested(root) if isinstance(x, ast.Call)]:
+            cn = call_name(c) or ""
+            if not cn.startswith(recv + "."):
+                if cn.startswith("lex_") or any(unparse(arg) == recv for arg in c.args):
+                    return False
+                continue
+            meth = cn.split(".", 1)[1]
+            if meth in ("peek", "get_position", "current_token_text"):
+                continue
+            if meth in ("accept", "accept_run", "ignore_run", "accept_prefix"):
+                lit = const_str(c.args[0]) if c.args else None
+                neg = any(k.arg == "negate" and getattr(k.value, "value", False) for k in c.keywords) or (len(c.args) > 1 and getattr(c.args[1], "value", False))
+                if lit is None or (("\n" in lit) != bool(neg)):
+                    return False
+                continue
+            return False
+    return True
+
+
 def r3_single_writer(ctx: Ctx) -> None:
     allowed_calls = {"a816.parse.scanner:Scanner.next", "a816.parse.scanner:Scanner.scan"}
     for fn in ctx.repo.all_functions():
@@ -242,6 +280,9 @@ def r3_single_writer(ctx: Ctx) -> None:
                 for t in tl:
                     if isinstance(t, ast.Attribute) and t.attr == "pos" and unparse(t.value) in ("s", "self") and (unparse(t.value) == "s" or (fn.cls and fn.cls.name == "Scanner")):
                         ctx.count("cursor_writes")
+                        if fn.fq not in allowed_pos and isinstance(n, ast.Assign) and _newline_free_lookahead(fn, n):
+                            ctx.ok(f"{fn.where}:{unparse(n)[:40]}", "look-ahead: the cursor is put back to a snapshot taken in this function, and nothing consumed in between can be a newline")
+                            continue
                         ctx.check(fn.fq in allowed_pos, f"{fn.where}:{unparse(n)[:40]}", "the scanner cursor is moved directly; characters skipped this way (newlines among them) bypass "
                                   "the line bookkeeping in next(), so later errors are reported on the wrong line")
         for c in calls_in(fn.node):
